@@ -367,6 +367,7 @@ def run_pyfunc(spec, ctx, bm):
                 if name in ("IKinBody", "IKinSpace", "IKinSpaceConstrained") and (fj[-1] != fp[-1] or fj[-1] == 0.0):
                     ctx.bump("iterative_flag_differs_observed", name)
                     continue
+                sens = 0.0
                 if name in START_ARG:
                     a3 = list(copy.deepcopy(a2))
                     a3[START_ARG[name]] = a3[START_ARG[name]] * (1 + 1e-13) + 1e-15
@@ -385,7 +386,9 @@ def run_pyfunc(spec, ctx, bm):
                     ok = bool(np.array_equal(np.isfinite(a_), fin))
                     if ok and fin.any():
                         e = float(np.max(np.abs(a_[fin] - b_[fin]))) / max(1.0, float(np.max(np.abs(b_[fin]))))
-                        ok = e <= 1e-10
+                        # an iterative kernel whose own answer moves by `sens` when its start moves by 1e-13 cannot be asked to agree
+                        # with its interpreted source (other rounding of the same arithmetic) more closely than a few times that
+                        ok = e <= max(1e-10, 10.0 * sens)
                     elif ok:
                         e = 0.0
                 ctx.err(clause, e if np.isfinite(e) else 1e300)
